@@ -152,14 +152,64 @@ def searches(F, fn):
                 if lam is not None and len(lam.params) == 1:
                     rets = [x for x in lam.nodes if x["k"] == "ReturnStmt" and "value" in x]
                     if len(rets) == 1:
+                        ld = {}
+                        for x in lam.nodes:
+                            if x["k"] == "DeclStmt":
+                                for d2 in x.get("decls", []):
+                                    if "init" in d2 and "d" in d2:
+                                        ld[("var", d2["n"], d2["d"])] = substitute(lam.term(d2["init"]), ld)
                         out.append({"kind": "algo:" + nd["fq"].split("::")[-1], "range": a[0][2], "elem": ("var", lam.params[0]["n"], lam.params[0]["d"]),
-                                    "pred": lam.term(rets[0]["value"]), "node": nd, "pred_fn": lam})
+                                    "pred": substitute(lam.term(rets[0]["value"]), ld), "node": nd, "pred_fn": lam})
         elif nd["k"] == "CXXForRangeStmt":
             d = fn.n(nd["loopvar"])["decls"][0]
             body = fn.n(nd["body"])
             ks = fn.kids(nd["body"]) if body["k"] == "CompoundStmt" else [nd["body"]]
             ifs = [fn.n(x) for x in ks if fn.n(x)["k"] == "IfStmt"]
-            if len(ks) == 1 and len(ifs) == 1 and ifs[0].get("else") is None:
-                out.append({"kind": "loop", "range": fn.term(nd["range"]), "elem": ("var", d["n"], d["d"]), "pred": fn.term(ifs[0]["cond"]),
-                            "node": nd, "pred_fn": fn, "if": ifs[0]})
+            decls_only = all(fn.n(x)["k"] in ("DeclStmt", "IfStmt") for x in ks)
+            if decls_only and len(ifs) == 1 and ifs[0].get("else") is None:
+                # locals declared in the body name sub-expressions of the test
+                ld = {}
+                for x in ks:
+                    if fn.n(x)["k"] == "DeclStmt":
+                        for d2 in fn.n(x).get("decls", []):
+                            if "init" in d2 and "d" in d2:
+                                ld[("var", d2["n"], d2["d"])] = substitute(fn.term(d2["init"]), ld)
+                out.append({"kind": "loop", "range": fn.term(nd["range"]), "elem": ("var", d["n"], d["d"]),
+                            "pred": substitute(fn.term(ifs[0]["cond"]), ld), "node": nd, "pred_fn": fn, "if": ifs[0]})
     return out
+
+
+def entry_producer(F, ph, rec_suffix="VolFile::IndexEntry", container="indexEntries"):
+    """Where the record appended to `container` by ph is built. Returns dict(host, ent, use, push, subst):
+    host  - the function that declares the local record and assigns its fields (ph itself, or a helper whose result is pushed)
+    ent   - the local record variable in host
+    use   - node id in host at which the record leaves it (the push_back in ph, or the helper's return statement)
+    push  - the push_back node in ph
+    subst - host parameters -> argument terms in ph (empty when host is ph)"""
+    pushes = [nd for nd in ph.nodes if nd["k"] == "CXXMemberCallExpr" and nd.get("fname") in ("push_back", "emplace_back") and "obj" in nd
+              and ph.term(nd["obj"])[0] == "mem" and ph.term(nd["obj"])[2] == container and nd.get("args")]
+    if len(pushes) != 1:
+        return None
+    pb = pushes[0]
+    a = ph.term(pb["args"][0])
+    def local_rec(f, v):
+        for nd in f.nodes:
+            if nd["k"] == "DeclStmt":
+                for d in nd.get("decls", []):
+                    if ("var", d.get("n"), d.get("d")) == v and (d.get("rec") or "").endswith(rec_suffix) and not d.get("is_ref"):
+                        return True
+        return False
+    if a[0] == "var" and local_rec(ph, a):
+        return {"host": ph, "ent": a, "use": pb["id"], "push": pb, "subst": {}}
+    an = ph.n(ph.strip(pb["args"][0]))
+    if an["k"] in CALLS:
+        for h in F.callees(an):
+            if not h.cfg:
+                continue
+            rets = [x for x in h.nodes if x["k"] == "ReturnStmt" and "value" in x]
+            if len(rets) == 1:
+                rv = h.term(rets[0]["value"])
+                if rv[0] == "var" and local_rec(h, rv):
+                    sub = {("var", p["n"], p["d"]): ph.term(x) for p, x in zip(h.params, an.get("args", []))}
+                    return {"host": h, "ent": rv, "use": rets[0]["id"], "push": pb, "subst": sub}
+    return None
